@@ -63,17 +63,33 @@ def seeds_table(res):
     return "\n".join(out)
 
 
+def benign_table(res):
+    out = ["| variation | area | result (all 20 quick checks) | what changes |", "|---|---|---|---|"]
+    base = f"{V}/benign"
+    for d in sorted(os.listdir(base)) if os.path.isdir(base) else []:
+        meta = json.load(open(f"{base}/{d}/meta.json"))
+        r = res.get(d)
+        if r and "checks" in r:
+            result = "quiet" if not r["detected_by"] else "**alarm: " + ", ".join(r["detected_by"]) + "**"
+        else:
+            result = "(not run)"
+        if meta.get("first_result"):
+            result += f" ({meta['first_result']})"
+        out.append(f"| {d} | {' '.join(meta.get('properties', []))} | {result} | {esc(meta.get('summary', ''))} |")
+    return "\n".join(out)
+
+
 def main():
     res = latest_results()
-    tables = {"findings": findings_table(), "candidates": candidates_table(res), "seeds": seeds_table(res)}
+    tables = {"findings": findings_table(), "candidates": candidates_table(res), "seeds": seeds_table(res), "benign": benign_table(res)}
     p = f"{V}/DESIGN.md"
     s = open(p).read()
     for k, t in tables.items():
-        pat = re.compile(rf"(<!-- BEGIN:{k} -->\n).*?(\n<!-- END:{k} -->)", re.S)
+        pat = re.compile(rf"(<!-- BEGIN:{k} -->\n).*?(\n?<!-- END:{k} -->)", re.S)
         if not pat.search(s):
             print(f"marker {k} missing")
             continue
-        s = pat.sub(lambda m: m.group(1) + t + m.group(2), s)
+        s = pat.sub(lambda m: m.group(1) + t + f"\n<!-- END:{k} -->", s)
     open(p, "w").write(s)
     kf = json.load(open(f"{V}/known_findings.json"))["findings"]
     print("findings:", len(kf), "open:", sum(f["status"] == "open" for f in kf))
